@@ -72,6 +72,9 @@ def streams(tier, rng, P, only=None, cases=None):
             cs.append(dict(req="run " + hx(src), src=src, show=src, key="src%d" % i))
         for j, src in enumerate(mml.sample_sources()):
             cs.append(dict(req="run " + hx(src), src=src, show=src[:200], key="sample%d" % j))
+        # notes whose gate comes out negative (a negative rate, a negative length, a Random gate): the note-off still follows its note-on
+        for j, src in enumerate(["c4,-10 d", "l%-20 c d", "q100 q.Random=250 c d e f g a b", "c%-5,50 d", "'ce'4,-20 g", "n60,4,-30 n62", "l4 c,-1 c,-100 c,-1000"]):
+            cs.append(dict(req="run " + hx(src), src=src, show=src, key="neg%d" % j))
         return cs
     def src_model(c, status, f):
         if status != "ok": return []
